@@ -83,6 +83,7 @@ type Options struct {
 	WantStacks       bool          // capture full stacks of blocked goroutines at the end
 	NoExplore        bool          // start outside the explored window until BeginExplore
 	Trace            bool          // keep a textual event log
+	BoundAll   bool          // every departure from the default schedule costs one deviation, also at blocking points (delay bounding)
 	NoTimerDeviation bool          // timers never fire while a goroutine can run (no I/O stalls)
 }
 
@@ -571,7 +572,7 @@ func (s *Sched) reschedule(from *G, exiting bool) {
 		if n > 1 {
 			costs := make([]uint8, n)
 			for i := range alts {
-				if curEnabled && i > 0 {
+				if (curEnabled || s.opt.BoundAll) && i > 0 {
 					costs[i] = 1
 				}
 			}
